@@ -109,6 +109,10 @@ func c14BidiClients() []c14Client {
 		mk("S Rall Sfill CR CP"), mk("S R Rall S Sfill R CR CP"),
 		// cancelled before the request was ever started, then straight to the response side
 		mk("X S R CP"), mk("X S CP"), mk("X S Rall CR CP"),
+		// cancelled a moment after the request was started: with a delay injected
+		// after the round trip the cancellation lands between the arrival of the
+		// response and the point where the library starts watching the context
+		mk("S P10 X CP"), mk("S P10 X Rall CR CP"),
 	}
 }
 
@@ -255,7 +259,7 @@ func c14(run *ev.Run) int {
 		}
 	}
 	// injection set: bidi over HTTP/2 + server stream over HTTP/1.1, reduced programs
-	pickClients := map[string]bool{"S,CR,Rall,CP": true, "S,R,CR,Rall,CP": true, "S,X,CP": true, "S,R,X,R,CR,CP": true, "S,CR,CP": true, "S,WH,Sfill,R,R,CR,CP": true, "Sbad,CR,Rall,CP": true, "S,X,Rall,CR,CP": true}
+	pickClients := map[string]bool{"S,P10,X,CP": true, "S,P10,X,Rall,CR,CP": true, "S,CR,Rall,CP": true, "S,R,CR,Rall,CP": true, "S,X,CP": true, "S,R,X,R,CR,CP": true, "S,CR,CP": true, "S,WH,Sfill,R,R,CR,CP": true, "Sbad,CR,Rall,CP": true, "S,X,Rall,CR,CP": true}
 	pickHandlers := map[string]bool{"drain-send2-ok": true, "send3-then-drain-ok": true, "recv1-send1-error": true, "send1-wait-for-cancel": true}
 	var pointSets [][]string
 	for _, p := range c14YieldPoints {
